@@ -6,6 +6,7 @@ import (
 	"crypto/sha1"
 	"encoding/binary"
 	"fmt"
+	"sync"
 )
 
 const (
@@ -37,11 +38,27 @@ func blobID(content []byte) [20]byte {
 	return id
 }
 
+var zpools = map[int]*sync.Pool{}
+var zpoolMu sync.Mutex
+
 func zdeflate(b []byte, level int) []byte {
+	zpoolMu.Lock()
+	pl := zpools[level]
+	if pl == nil {
+		pl = &sync.Pool{}
+		zpools[level] = pl
+	}
+	zpoolMu.Unlock()
 	var buf bytes.Buffer
-	w, _ := zlib.NewWriterLevel(&buf, level)
+	w, _ := pl.Get().(*zlib.Writer)
+	if w == nil {
+		w, _ = zlib.NewWriterLevel(&buf, level)
+	} else {
+		w.Reset(&buf)
+	}
 	w.Write(b)
 	w.Close()
+	pl.Put(w)
 	return buf.Bytes()
 }
 
